@@ -554,18 +554,20 @@ theorem C05_forms_lengths (k : Kind) (nIds nDim : Nat) (s : SensOut ℝ) :
     simp
 
 
-/-! ## 4. a composed model is the sum of its parts -/
+/-! ## 4. a composed model is the sum of its parts on their own dimensions, parameters, covariates -/
 
 section generic
 variable {α : Type} [Add α] [Sub α] [Mul α] [Div α] [Neg α] [ScalarFns α] [HasErf α]
 
-/-- **C05 (additivity).** For every list of sub-models, the composed log-likelihood computed by
-    the loop with running offsets equals the sum (Python's float addition, `-inf` absorbing) of
-    the parts, part `k` evaluated on its own block of dimensions and of parameters, the blocks
-    starting where the preceding parts end. Holds for any scalar type (so also for `Float`). -/
+/-- **C05 (additivity).** For every list of sub-models — bare elementary models and
+    covariate-wrapped ones in any order — the composed log-likelihood computed by the loop with
+    running offsets equals the sum (Python's float addition, `-inf` absorbing) of the parts, part
+    `k` evaluated on its own block of dimensions, of parameters and of covariate columns, the blocks
+    starting where the preceding parts end (`partLL`; a wrapped part sees `ϑ_i = ϑ₀ + β χ_i` built
+    from its own slice). Holds for any scalar type (so also for `Float`). -/
 theorem C05_composed_additive (nIds : Nat) (subs : List SubModel) (params : Nat → α)
-    (obs : Nat → Nat → α) :
-    composedLL nIds subs params obs = composedLLSpec nIds subs params obs := by
+    (obs cov : Nat → Nat → α) :
+    composedLL nIds subs params obs cov = composedLLSpec nIds subs params obs cov := by
   unfold composedLL composedLLSpec
   rw [composedLLGo_eq]
   congr 1
@@ -578,24 +580,42 @@ end generic
 /-- **C05 (additivity, in numbers).** If every part is inside its support with value `v k`, the
     composed model returns `Σ_k v k`; if some part scores `-∞`, so does the composed model. -/
 theorem C05_composed_additive_val (nIds : Nat) (subs : List SubModel) (params : Nat → ℝ)
-    (obs : Nat → Nat → ℝ) :
-    (∀ v : Nat → ℝ, (∀ k, k < subs.length → partLL nIds subs params obs k = .val (v k)) →
-      composedLL nIds subs params obs = .val (isum subs.length v))
-    ∧ ((∃ k, k < subs.length ∧ partLL nIds subs params obs k = .negInf) →
-      composedLL nIds subs params obs = .negInf) := by
+    (obs cov : Nat → Nat → ℝ) :
+    (∀ v : Nat → ℝ, (∀ k, k < subs.length → partLL nIds subs params obs cov k = .val (v k)) →
+      composedLL nIds subs params obs cov = .val (isum subs.length v))
+    ∧ ((∃ k, k < subs.length ∧ partLL nIds subs params obs cov k = .negInf) →
+      composedLL nIds subs params obs cov = .negInf) := by
   rw [C05_composed_additive]
   unfold composedLLSpec
-  have hu : ∀ k, k < subs.length → partLL nIds subs params obs k ≠ .undefined := by
+  have hu : ∀ k, k < subs.length → partLL nIds subs params obs cov k ≠ .undefined := by
     intro k hk
     unfold partLL
     rw [List.getElem?_eq_getElem hk]
     exact popLL_ne_undefined _ _ _ _ _
   constructor
   · intro v hv
-    have := foldl_add_val subs.length (partLL nIds subs params obs) v 0 hv
+    have := foldl_add_val subs.length (partLL nIds subs params obs cov) v 0 hv
     simpa [Score.zero] using this
   · rintro ⟨k, hk, hp⟩
     exact foldl_add_hits_negInf subs.length _ hu _ (by simp [Score.zero]) k hk hp
+
+/-- **C05 (a covariate-wrapped part is the documented density with individual-specific
+    parameters).** Behind a covariate model the kernel receives `ϑ_i = covTh(ϑ₀, β, χ_i)`; e.g. for a
+    wrapped centred Gaussian part the value is `Σ_i Σ_d log N(ψ_id; μ_id, σ_id²)` with
+    `(μ_id, σ_id) = ϑ_i[·, d]` (instance of `C05_gauss_is_logpdf`; the other kinds alike). -/
+theorem C05_covariate_part_is_logpdf (nIds : Nat) (s : SubModel) (hk : s.kind = .gauss true)
+    (hc : s.nCov ≠ 0) (params : Nat → ℝ) (curParam curCov : Nat) (obs cov : Nat → Nat → ℝ)
+    (hs : ∀ i d, i < nIds → d < s.nDim →
+      0 < covTh (s.cfg nIds) (fun j => params (curParam + j)) (sliceCov cov curCov) i 1 d) :
+    popLL s.kind nIds s.nDim (pcSubTh nIds s params curParam cov curCov) obs
+      = .val (isum2 nIds s.nDim (fun i d => Real.log (ProbabilityTheory.gaussianPDFReal
+          (covTh (s.cfg nIds) (fun j => params (curParam + j)) (sliceCov cov curCov) i 0 d)
+          (NNReal.mk (covTh (s.cfg nIds) (fun j => params (curParam + j)) (sliceCov cov curCov) i 1 d ^ 2)
+            (sq_nonneg _)) (obs i d)))) := by
+  rw [hk]
+  unfold pcSubTh
+  rw [if_neg hc]
+  exact C05_gauss_is_logpdf nIds s.nDim _ obs hs
 
 
 /-! ## 5. the value, the sensitivities and the individual parameters do not depend on the layout -/
@@ -619,42 +639,38 @@ theorem C05_layout_invariant (k : Kind) (nIds nDim : Nat) (hI : 0 < nIds) (hD : 
       = Except.map (sensObs k nIds nDim) (sensLayout false k nIds nDim lay' obs up)
     ∧ indivLayout false k nIds nDim lay eta ret = indivLayout false k nIds nDim lay' eta ret
     ∧ llLayout false k nIds nDim lay obs = .ok (llCanon k nIds nDim m obs) := by
-  have l1 := llLayout_eq_canon false k nIds nDim m lay obs h hI hD (by simp)
-  have l2 := llLayout_eq_canon false k nIds nDim m lay' obs h' hI hD (by simp)
+  have l1 := llLayout_eq_canon false k nIds nDim m lay obs h hI hD
+  have l2 := llLayout_eq_canon false k nIds nDim m lay' obs h' hI hD
   have s1 := sensLayout_eq_canon false k nIds nDim m lay obs up h hI hD (by simp)
   have s2 := sensLayout_eq_canon false k nIds nDim m lay' obs up h' hI hD (by simp)
   have i1 := indivLayout_eq_canon false k nIds nDim m lay eta ret h hI hD hn (by simp)
   have i2 := indivLayout_eq_canon false k nIds nDim m lay' eta ret h' hI hD hn (by simp)
   exact ⟨by rw [l1, l2], by rw [s1, s2], by rw [i1, i2], l1⟩
 
-/-- **C05 (layout invariance), the code as it is.** The same statement holds for the legacy
-    branches whenever the two layouts avoid the slips: no matrix layout for
+/-- **C05 (layout invariance), the code as it is.** For `compute_log_likelihood` of every class the
+    statement holds without restriction (the heterogeneous model's tensor reading was repaired in
+    `04b584d`). For `compute_sensitivities` and `compute_individual_parameters` it holds whenever
+    the two layouts avoid the remaining recorded slips: no matrix layout for
     `LogNormalModel.compute_sensitivities` and for the non-centred `compute_individual_parameters`
-    (the `n_parameters = parameters[np.newaxis, ...]` branches), no tensor layout for
-    `HeterogeneousModel.compute_log_likelihood / compute_sensitivities` (`parameters[:, 0, :]`). -/
+    (the `n_parameters = parameters[np.newaxis, ...]` branches, pinned by the unedited suite). -/
 theorem C05_layout_invariant_partial (k : Kind) (nIds nDim : Nat) (hI : 0 < nIds) (hD : 0 < nDim)
     (m : Nat → Nat → α) (lay lay' : Layout α)
     (h : IsLayoutOf nIds (k.perDim nIds) nDim m lay) (h' : IsLayoutOf nIds (k.perDim nIds) nDim m lay')
     (obs : Nat → Nat → α) (up : Option (Nat → Nat → α)) (eta : EtaArg α) (ret : Bool)
     (hn : eta.nRows nIds = nIds) :
-    ((k = .hetero → lay.isTensor = false ∧ lay'.isTensor = false) →
-      llLayout true k nIds nDim lay obs = llLayout true k nIds nDim lay' obs)
-    ∧ ((k = .hetero → lay.isTensor = false ∧ lay'.isTensor = false) →
-       (sensTypo k = true → lay.isMatrix = false ∧ lay'.isMatrix = false) →
+    llLayout true k nIds nDim lay obs = llLayout true k nIds nDim lay' obs
+    ∧ ((sensTypo k = true → lay.isMatrix = false ∧ lay'.isMatrix = false) →
       Except.map (sensObs k nIds nDim) (sensLayout true k nIds nDim lay obs up)
         = Except.map (sensObs k nIds nDim) (sensLayout true k nIds nDim lay' obs up))
     ∧ ((k = .gauss false ∨ k = .logn false → ret = false →
           lay.isMatrix = false ∧ lay'.isMatrix = false) →
       indivLayout true k nIds nDim lay eta ret = indivLayout true k nIds nDim lay' eta ret) := by
   refine ⟨?_, ?_, ?_⟩
-  · intro hh
-    rw [llLayout_eq_canon true k nIds nDim m lay obs h hI hD (fun _ hk => (hh hk).1),
-      llLayout_eq_canon true k nIds nDim m lay' obs h' hI hD (fun _ hk => (hh hk).2)]
-  · intro hh ht
-    rw [sensLayout_eq_canon true k nIds nDim m lay obs up h hI hD
-        (fun _ => ⟨fun hk => (ht hk).1, fun hk => (hh hk).1⟩),
-      sensLayout_eq_canon true k nIds nDim m lay' obs up h' hI hD
-        (fun _ => ⟨fun hk => (ht hk).2, fun hk => (hh hk).2⟩)]
+  · rw [llLayout_eq_canon true k nIds nDim m lay obs h hI hD,
+      llLayout_eq_canon true k nIds nDim m lay' obs h' hI hD]
+  · intro ht
+    rw [sensLayout_eq_canon true k nIds nDim m lay obs up h hI hD (fun _ hk => (ht hk).1),
+      sensLayout_eq_canon true k nIds nDim m lay' obs up h' hI hD (fun _ hk => (ht hk).2)]
   · intro hm
     have side : ∀ l : Layout α, (k = .gauss false ∨ k = .logn false → ret = false →
         l.isMatrix = false) → l.isMatrix = false ∨ ret = true
@@ -669,6 +685,23 @@ theorem C05_layout_invariant_partial (k : Kind) (nIds nDim : Nat) (hI : 0 < nIds
         (fun _ => side lay (fun a b => (hm a b).1)),
       indivLayout_eq_canon true k nIds nDim m lay' eta ret h' hI hD hn
         (fun _ => side lay' (fun a b => (hm a b).2))]
+
+/-- **C05 (layout invariance of the heterogeneous and pooled models, the code as it is).** The
+    point-mass models contain no slip any more: value, sensitivities in all three forms and
+    individual parameters agree for every pair of layouts — the full statement, no side condition. -/
+theorem C05_delta_layout_invariant (k : Kind) (hk : k = .pooled ∨ k = .hetero) (nIds nDim : Nat)
+    (hI : 0 < nIds) (hD : 0 < nDim) (m : Nat → Nat → α) (lay lay' : Layout α)
+    (h : IsLayoutOf nIds (k.perDim nIds) nDim m lay) (h' : IsLayoutOf nIds (k.perDim nIds) nDim m lay')
+    (obs : Nat → Nat → α) (up : Option (Nat → Nat → α)) (eta : EtaArg α) (ret : Bool)
+    (hn : eta.nRows nIds = nIds) :
+    llLayout true k nIds nDim lay obs = llLayout true k nIds nDim lay' obs
+    ∧ Except.map (sensObs k nIds nDim) (sensLayout true k nIds nDim lay obs up)
+        = Except.map (sensObs k nIds nDim) (sensLayout true k nIds nDim lay' obs up)
+    ∧ indivLayout true k nIds nDim lay eta ret = indivLayout true k nIds nDim lay' eta ret := by
+  have hp := C05_layout_invariant_partial k nIds nDim hI hD m lay lay' h h' obs up eta ret hn
+  refine ⟨hp.1, hp.2.1 ?_, hp.2.2 ?_⟩
+  · intro ht; rcases hk with rfl | rfl <;> simp [sensTypo] at ht
+  · intro hk'; rcases hk with rfl | rfl <;> simp at hk'
 
 end generic5
 
@@ -701,26 +734,26 @@ theorem C05_matrix_layout_counterexample :
   all_goals norm_num
 
 
-/-- **C05 counterexample (heterogeneous model, tensor layout, legacy).** Two individuals with own
-    values `1` and `2`, observations equal to them: flat and matrix layouts score `0`; the
-    per-individual tensor of the same values scores `-∞` (everybody is compared with individual 0's
-    value, `parameters[:, 0, :]`), although `compute_individual_parameters` reads the diagonal of the
-    same tensor and returns `(1, 2)`. The intended reading scores `0`. -/
+/-- **C05 counterexample (heterogeneous model, tensor layout, code before `04b584d`).** Two
+    individuals with own values `1` and `2`, observations equal to them: flat and matrix layouts
+    score `0`; the per-individual tensor of the same values scored `-∞` (everybody was compared with
+    individual 0's value, `parameters[:, 0, :]` — `heteroLLPreFix`), although
+    `compute_individual_parameters` reads the diagonal of the same tensor and returns `(1, 2)`.
+    The code as it is (`llLayout true`) scores `0`. -/
 theorem C05_hetero_tensor_counterexample :
     llLayout true .hetero 2 1 (.flat [(1:ℝ), 2]) (fun i _ => if i = 0 then 1 else 2) = .ok (.val 0)
     ∧ llLayout true .hetero 2 1 (.matrix [[(1:ℝ)], [2]]) (fun i _ => if i = 0 then 1 else 2)
         = .ok (.val 0)
-    ∧ llLayout true .hetero 2 1 (.tensor [[[(1:ℝ)], [2]], [[1], [2]]])
+    ∧ heteroLLPreFix 2 1 (.tensor [[[(1:ℝ)], [2]], [[1], [2]]])
         (fun i _ => if i = 0 then 1 else 2) = .ok .negInf
-    ∧ llLayout false .hetero 2 1 (.tensor [[[(1:ℝ)], [2]], [[1], [2]]])
+    ∧ llLayout true .hetero 2 1 (.tensor [[[(1:ℝ)], [2]], [[1], [2]]])
         (fun i _ => if i = 0 then 1 else 2) = .ok (.val 0)
     ∧ indivLayout true .hetero 2 1 (.tensor [[[(1:ℝ)], [2]], [[1], [2]]]) (.mat [[0], [0]]) false
         = .ok [[.val 1], [.val 2]] := by
   refine ⟨?_, ?_, ?_, ?_, ?_⟩
   all_goals
-    simp [llLayout, indivLayout, deltaArr, deltaTh, reshape2, chunk, matArr, NArr.col, Arr2.bc, popLL,
-      psiMat, iany2, iany, List.range_succ]
-
+    simp [llLayout, heteroLLPreFix, indivLayout, heteroDrawn, deltaArr, deltaTh, reshape2, chunk, matArr, NArr.col,
+      Arr2.bc, popLL, psiMat, iany2, iany, List.range_succ]
 
 
 /-! ## 6. sensitivities of a composed model: block by block from the parts; lengths -/
@@ -728,41 +761,47 @@ theorem C05_hetero_tensor_counterexample :
 section generic6
 variable {α : Type} [Add α] [Sub α] [Mul α] [Div α] [Neg α] [ScalarFns α] [HasErf α]
 
-/-- **C05 (additivity of the sensitivities).** For every list of sub-models: the composed model's
-    separate form (`_compute_sensitivities`) and hierarchical form (`_compute_reduced_sensitivities`)
-    are assembled, block by block and in order, from the sensitivities of each part evaluated on its
-    own dimensions, parameters and upstream sensitivities (`partSens`): scores add, `dpsi` columns
-    and flattened `dtheta` blocks are concatenated; in the hierarchical form a part's bottom entries
-    go to the individual-level block and the remainder of its `reduce` vector to the top block. -/
+/-- **C05 (additivity of the sensitivities).** For every list of sub-models (bare or
+    covariate-wrapped): the composed model's separate form (`_compute_sensitivities`) and
+    hierarchical form (`_compute_reduced_sensitivities`) are assembled, block by block and in
+    order, from the sensitivities of each part evaluated on its own dimensions, parameters,
+    covariate columns and upstream sensitivities (`partSens`): scores add, `dpsi` columns and
+    flattened `dtheta` blocks (`subFlattened`: a bare model's `Σ_i dθ`, a wrapped model's
+    `hstack(dpop, dcov)`) are concatenated; in the hierarchical form a part's bottom entries go to
+    the individual-level block and the remainder of its `reduce` vector (`subReduce`) to the top
+    block. -/
 theorem C05_composed_reduced_eq (nIds : Nat) (subs : List SubModel) (params : Nat → α)
-    (obs : Nat → Nat → α) (up : Option (Nat → Nat → α)) :
-    composedSens nIds subs params obs up
+    (obs cov : Nat → Nat → α) (up : Option (Nat → Nat → α)) :
+    composedSens nIds subs params obs cov up
       = (List.range subs.length).foldl
-          (fun a k => sepStep nIds a (partSens nIds subs params obs up k)) ⟨Score.zero, true, [], []⟩
-    ∧ composedRedGo nIds params obs up subs 0 0 ⟨Score.zero, true, [], []⟩
+          (fun a k => sepStep nIds a (partSens nIds subs params obs cov up k))
+          ⟨Score.zero, true, [], []⟩
+    ∧ composedRedGo nIds params obs cov up subs 0 0 0 ⟨Score.zero, true, [], []⟩
       = (List.range subs.length).foldl
-          (fun a k => redStep nIds a (partSens nIds subs params obs up k)) ⟨Score.zero, true, [], []⟩ :=
-  ⟨composedSensGo_eq nIds params obs up subs 0 0 _, composedRedGo_eq nIds params obs up subs 0 0 _⟩
+          (fun a k => redStep nIds a (partSens nIds subs params obs cov up k))
+          ⟨Score.zero, true, [], []⟩ :=
+  ⟨composedSensGo_eq nIds params obs cov up subs 0 0 0 _,
+   composedRedGo_eq nIds params obs cov up subs 0 0 0 _⟩
 
 
-/-- **C05 (lengths of the composed forms).** For every list of sub-models and every `nIds`: the
-    hierarchical gradient has `n_bottom + n_top` entries (`n_hierarchical_parameters`, itself the
-    sum over the parts), the separate form has `n_parameters` population entries and one `dpsi`
-    column per dimension. -/
+/-- **C05 (lengths of the composed forms).** For every list of sub-models (bare or
+    covariate-wrapped) and every `nIds`: the hierarchical gradient has `n_bottom + n_top` entries
+    (`n_hierarchical_parameters`, itself the sum over the parts), the separate form has
+    `n_parameters` population entries and one `dpsi` column per dimension. -/
 theorem C05_composed_lengths (nIds : Nat) (subs : List SubModel) (params : Nat → α)
-    (obs : Nat → Nat → α) (up : Option (Nat → Nat → α)) :
-    (composedReduced nIds subs params obs up).2.2.length
+    (obs cov : Nat → Nat → α) (up : Option (Nat → Nat → α)) :
+    (composedReduced nIds subs params obs cov up).2.2.length
       = (composedNHier nIds subs).1 + (composedNHier nIds subs).2
-    ∧ (composedSens nIds subs params obs up).dtheta.length = composedNParams nIds subs
-    ∧ (composedSens nIds subs params obs up).cols.length = composedNDim subs := by
+    ∧ (composedSens nIds subs params obs cov up).dtheta.length = composedNParams nIds subs
+    ∧ (composedSens nIds subs params obs cov up).cols.length = composedNDim subs := by
   refine ⟨?_, ?_, ?_⟩
   · unfold composedReduced
     simp only [List.length_append, length_flatMap_cols]
-    have := composedRedGo_length nIds params obs up subs 0 0 ⟨Score.zero, true, [], []⟩
+    have := composedRedGo_length nIds params obs cov up subs 0 0 0 ⟨Score.zero, true, [], []⟩
     simpa using this
-  · have := (composedSensGo_length nIds params obs up subs 0 0 ⟨Score.zero, true, [], []⟩).1
+  · have := (composedSensGo_length nIds params obs cov up subs 0 0 0 ⟨Score.zero, true, [], []⟩).1
     simpa [composedSens] using this
-  · have := (composedSensGo_length nIds params obs up subs 0 0 ⟨Score.zero, true, [], []⟩).2
+  · have := (composedSensGo_length nIds params obs cov up subs 0 0 0 ⟨Score.zero, true, [], []⟩).2
     simpa [composedSens] using this
 
 end generic6
@@ -902,6 +941,194 @@ theorem C05_lognNC_reduce_is_gradient (nIds nDim : Nat) (z : Nat → ℝ)
     (by simp only [Function.update_eq_self]; exact hL)
   simp only [Function.update_eq_self] at h
   exact h.2.2.congr_deriv (reduce_entry nIds nDim _ j hj)
+
+
+/-! ## 8. behind a covariate model: the gradient contract of the wrapped model
+
+A `CovariatePopulationModel` hands the wrapped model the per-individual tensor `ϑ_i` and pushes the
+wrapped model's separate-form `dtheta` (`dvartheta`) through `LinearCovariateModel.
+compute_sensitivities` (`covSens`, C07). `C07_grad_hasDerivAt` proves that `covSens g` is the
+gradient w.r.t. `(ϑ₀, β)` of `L ∘ ϑ` for ANY `L` whose derivative along tensor curves is
+`Σ_{i,p,d} g[i,p,d] · Θ'[i,p,d]`. The theorems below discharge exactly that hypothesis for the five
+kinds with `g = popSens.dtheta` — so a covariate-wrapped part's block of the composed gradient
+(`subFlattened`, `C05_composed_reduced_eq`) is the derivative of that part's value. -/
+
+theorem hasGradientAt_const (nIds nDim : Nat) (c : ℝ) (x : Nat → Nat → ℝ) :
+    HasGradientAt nIds nDim (fun _ => c) (upAt none) x := by
+  intro cv c' t _ _
+  have : isum2 nIds nDim (fun i d => upAt (none : Option (Nat → Nat → ℝ)) i d * c' i d) = 0 := by
+    simp [isum2_eq, upAt]
+  rw [this]
+  exact hasDerivAt_const _ _
+
+/-- **C05 (the wrapped model's gradient contract, Gaussian).** With the individual parameters held
+    fixed, along every differentiable curve of per-individual parameter tensors `Θ` through `θ₀` the
+    value has derivative `Σ_{i,p,d} dtheta[i,p,d] · Θ'[i,p,d]` with the model's separate-form
+    `dtheta` — exactly the hypothesis under which `C07_grad_hasDerivAt` concludes that the
+    covariate model's `hstack(dpop, dcov)` is the gradient w.r.t. `(ϑ₀, β)`. -/
+theorem C05_gauss_dvartheta_contract (nIds nDim : Nat) (th0 : Nat → Nat → Nat → ℝ)
+    (psi : Nat → Nat → ℝ) (up : Option (Nat → Nat → ℝ))
+    (hpos : ∀ i d, i < nIds → d < nDim → 0 < th0 i 1 d)
+    (Θ : ℝ → Nat → Nat → Nat → ℝ) (Θ' : Nat → Nat → Nat → ℝ) (t : ℝ) (h0 : Θ t = th0)
+    (hΘ : ∀ i p d, HasDerivAt (fun s => Θ s i p d) (Θ' i p d) t) :
+    HasDerivAt (fun s => gaussCLLraw nIds nDim (fun i d => Θ s i 0 d) (fun i d => Θ s i 1 d) psi)
+      (∑ i ∈ Finset.range nIds, ∑ p ∈ Finset.range 2, ∑ d ∈ Finset.range nDim,
+        (popSens (.gauss true) nIds nDim th0 psi up).dtheta i p d * Θ' i p d) t := by
+  have hpos' : ∀ i d, i < nIds → d < nDim → 0 < Θ t i 1 d := by rw [h0]; exact hpos
+  have h := C05_gauss_grad nIds nDim (fun i d s => Θ s i 0 d) (fun i d s => Θ s i 1 d)
+    (fun i d _ => psi i d) (fun i d => Θ' i 0 d) (fun i d => Θ' i 1 d) (fun _ _ => 0) t none
+    (fun _ => 0) (fun i d _ _ => hΘ i 0 d) (fun i d _ _ => hΘ i 1 d)
+    (fun i d _ _ => hasDerivAt_const _ _) hpos' (hasGradientAt_const nIds nDim 0 _)
+  have h3 := h.2.2
+  simp only [zero_add] at h3
+  refine h3.congr_deriv ?_
+  rw [sum_tensor_two]
+  refine isum2_congr _ _ _ _ fun i d hi hd => ?_
+  rw [popSens_gauss nIds nDim th0 psi up hpos,
+    popSens_gauss nIds nDim _ psi none (by intro i d hi hd; simpa [thOf] using hpos' i d hi hd)]
+  simp [thOf, h0]
+
+
+
+/-- the same contract for the centred log-normal model -/
+theorem C05_logn_dvartheta_contract (nIds nDim : Nat) (th0 : Nat → Nat → Nat → ℝ)
+    (psi : Nat → Nat → ℝ) (up : Option (Nat → Nat → ℝ))
+    (hpos : ∀ i d, i < nIds → d < nDim → 0 < th0 i 1 d)
+    (hppos : ∀ i d, i < nIds → d < nDim → 0 < psi i d)
+    (Θ : ℝ → Nat → Nat → Nat → ℝ) (Θ' : Nat → Nat → Nat → ℝ) (t : ℝ) (h0 : Θ t = th0)
+    (hΘ : ∀ i p d, HasDerivAt (fun s => Θ s i p d) (Θ' i p d) t) :
+    HasDerivAt (fun s => lognCLLraw nIds nDim (fun i d => Θ s i 0 d) (fun i d => Θ s i 1 d) psi)
+      (∑ i ∈ Finset.range nIds, ∑ p ∈ Finset.range 2, ∑ d ∈ Finset.range nDim,
+        (popSens (.logn true) nIds nDim th0 psi up).dtheta i p d * Θ' i p d) t := by
+  have hpos' : ∀ i d, i < nIds → d < nDim → 0 < Θ t i 1 d := by rw [h0]; exact hpos
+  have h := C05_logn_grad nIds nDim (fun i d s => Θ s i 0 d) (fun i d s => Θ s i 1 d)
+    (fun i d _ => psi i d) (fun i d => Θ' i 0 d) (fun i d => Θ' i 1 d) (fun _ _ => 0) t none
+    (fun _ => 0) (fun i d _ _ => hΘ i 0 d) (fun i d _ _ => hΘ i 1 d)
+    (fun i d _ _ => hasDerivAt_const _ _) hpos' hppos (hasGradientAt_const nIds nDim 0 _)
+  have h3 := h.2.2
+  simp only [zero_add] at h3
+  refine h3.congr_deriv ?_
+  rw [sum_tensor_two]
+  refine isum2_congr _ _ _ _ fun i d hi hd => ?_
+  rw [popSens_logn nIds nDim th0 psi up hpos hppos,
+    popSens_logn nIds nDim _ psi none (by intro i d hi hd; simpa [thOf] using hpos' i d hi hd) hppos]
+  simp [thOf, h0]
+
+/-- the same contract for the truncated Gaussian model -/
+theorem C05_trunc_dvartheta_contract (nIds nDim : Nat) (th0 : Nat → Nat → Nat → ℝ)
+    (psi : Nat → Nat → ℝ) (up : Option (Nat → Nat → ℝ))
+    (hpos : ∀ i d, i < nIds → d < nDim → 0 < th0 i 1 d)
+    (hppos : ∀ i d, i < nIds → d < nDim → 0 ≤ psi i d)
+    (Θ : ℝ → Nat → Nat → Nat → ℝ) (Θ' : Nat → Nat → Nat → ℝ) (t : ℝ) (h0 : Θ t = th0)
+    (hΘ : ∀ i p d, HasDerivAt (fun s => Θ s i p d) (Θ' i p d) t) :
+    HasDerivAt (fun s => truncLLraw nIds nDim (fun i d => Θ s i 0 d) (fun i d => Θ s i 1 d) psi)
+      (∑ i ∈ Finset.range nIds, ∑ p ∈ Finset.range 2, ∑ d ∈ Finset.range nDim,
+        (popSens .trunc nIds nDim th0 psi up).dtheta i p d * Θ' i p d) t := by
+  have hpos' : ∀ i d, i < nIds → d < nDim → 0 < Θ t i 1 d := by rw [h0]; exact hpos
+  have h := C05_trunc_grad nIds nDim (fun i d s => Θ s i 0 d) (fun i d s => Θ s i 1 d)
+    (fun i d _ => psi i d) (fun i d => Θ' i 0 d) (fun i d => Θ' i 1 d) (fun _ _ => 0) t none
+    (fun _ => 0) (fun i d _ _ => hΘ i 0 d) (fun i d _ _ => hΘ i 1 d)
+    (fun i d _ _ => hasDerivAt_const _ _) hpos' hppos (hasGradientAt_const nIds nDim 0 _)
+  have h3 := h.2.2
+  simp only [zero_add] at h3
+  refine h3.congr_deriv ?_
+  rw [sum_tensor_two]
+  refine isum2_congr _ _ _ _ fun i d hi hd => ?_
+  rw [popSens_trunc nIds nDim th0 psi up hpos hppos,
+    popSens_trunc nIds nDim _ psi none (by intro i d hi hd; simpa [thOf] using hpos' i d hi hd) hppos]
+  simp [thOf, h0]
+
+/-- non-centred Gaussian behind a covariate model: `ψ_id = ϑ_i[0,d] + ϑ_i[1,d] η_id`; the upstream
+    sensitivities reach `ϑ_i` through `ψ` — `dtheta[i,0,d] = dlogp_dpsi`, `dtheta[i,1,d] = dlogp_dpsi·η` -/
+theorem C05_gaussNC_dvartheta_contract (nIds nDim : Nat) (th0 : Nat → Nat → Nat → ℝ)
+    (eta : Nat → Nat → ℝ) (up : Option (Nat → Nat → ℝ)) (L : (Nat → Nat → ℝ) → ℝ)
+    (hnn : ∀ i d, i < nIds → d < nDim → 0 ≤ th0 i 1 d)
+    (hL : HasGradientAt nIds nDim L (upAt up) (fun i d => th0 i 0 d + th0 i 1 d * eta i d))
+    (Θ : ℝ → Nat → Nat → Nat → ℝ) (Θ' : Nat → Nat → Nat → ℝ) (t : ℝ) (h0 : Θ t = th0)
+    (hΘ : ∀ i p d, HasDerivAt (fun s => Θ s i p d) (Θ' i p d) t) :
+    HasDerivAt (fun s => L (fun i d => Θ s i 0 d + Θ s i 1 d * eta i d) + stdNormalLL nIds nDim eta)
+      (∑ i ∈ Finset.range nIds, ∑ p ∈ Finset.range 2, ∑ d ∈ Finset.range nDim,
+        (popSens (.gauss false) nIds nDim th0 eta up).dtheta i p d * Θ' i p d) t := by
+  have hnn' : ∀ i d, i < nIds → d < nDim → 0 ≤ Θ t i 1 d := by rw [h0]; exact hnn
+  have h := C05_gaussNC_grad nIds nDim (fun i d s => Θ s i 0 d) (fun i d s => Θ s i 1 d)
+    (fun i d _ => eta i d) (fun i d => Θ' i 0 d) (fun i d => Θ' i 1 d) (fun _ _ => 0) t up L
+    (fun i d _ _ => hΘ i 0 d) (fun i d _ _ => hΘ i 1 d)
+    (fun i d _ _ => hasDerivAt_const _ _) hnn' (by rw [h0]; exact hL)
+  refine h.2.2.congr_deriv ?_
+  rw [sum_tensor_two]
+  refine isum2_congr _ _ _ _ fun i d hi hd => ?_
+  rw [popSens_gaussNC nIds nDim th0 eta up hnn,
+    popSens_gaussNC nIds nDim _ eta up (by intro i d hi hd; simpa [thOf] using hnn' i d hi hd)]
+  simp
+
+/-- non-centred log-normal behind a covariate model: `ψ_id = exp(ϑ_i[0,d] + ϑ_i[1,d] η_id)` -/
+theorem C05_lognNC_dvartheta_contract (nIds nDim : Nat) (th0 : Nat → Nat → Nat → ℝ)
+    (eta : Nat → Nat → ℝ) (up : Option (Nat → Nat → ℝ)) (L : (Nat → Nat → ℝ) → ℝ)
+    (hnn : ∀ i d, i < nIds → d < nDim → 0 ≤ th0 i 1 d)
+    (hL : HasGradientAt nIds nDim L (upAt up)
+      (fun i d => Real.exp (th0 i 0 d + th0 i 1 d * eta i d)))
+    (Θ : ℝ → Nat → Nat → Nat → ℝ) (Θ' : Nat → Nat → Nat → ℝ) (t : ℝ) (h0 : Θ t = th0)
+    (hΘ : ∀ i p d, HasDerivAt (fun s => Θ s i p d) (Θ' i p d) t) :
+    HasDerivAt (fun s => L (fun i d => Real.exp (Θ s i 0 d + Θ s i 1 d * eta i d))
+        + stdNormalLL nIds nDim eta)
+      (∑ i ∈ Finset.range nIds, ∑ p ∈ Finset.range 2, ∑ d ∈ Finset.range nDim,
+        (popSens (.logn false) nIds nDim th0 eta up).dtheta i p d * Θ' i p d) t := by
+  have hnn' : ∀ i d, i < nIds → d < nDim → 0 ≤ Θ t i 1 d := by rw [h0]; exact hnn
+  have h := C05_lognNC_grad nIds nDim (fun i d s => Θ s i 0 d) (fun i d s => Θ s i 1 d)
+    (fun i d _ => eta i d) (fun i d => Θ' i 0 d) (fun i d => Θ' i 1 d) (fun _ _ => 0) t up L
+    (fun i d _ _ => hΘ i 0 d) (fun i d _ _ => hΘ i 1 d)
+    (fun i d _ _ => hasDerivAt_const _ _) hnn' (by rw [h0]; exact hL)
+  refine h.2.2.congr_deriv ?_
+  rw [sum_tensor_two]
+  refine isum2_congr _ _ _ _ fun i d hi hd => ?_
+  rw [popSens_lognNC nIds nDim th0 eta up hnn,
+    popSens_lognNC nIds nDim _ eta up (by intro i d hi hd; simpa [thOf] using hnn' i d hi hd)]
+  simp [thOf, h0]
+
+
+/-! ## 9. `compute_pointwise_ll` (pooled model) and one-dimensional observations -/
+
+/-- **C05 (pointwise form of the pooled point mass).** Every entry of
+    `PooledModel.compute_pointwise_ll` is `0` where the individual's value equals the pooled value
+    and `-∞` where it differs, and the total `compute_log_likelihood` is their sum: `0` iff every
+    entry is `0`, `-∞` as soon as one entry is. -/
+theorem C05_pooled_pointwise (nIds nDim : Nat) (v obs : Nat → Nat → ℝ) :
+    (∀ i d, pooledPW v obs i d = if obs i d = v i d then .val 0 else .negInf)
+    ∧ ((∀ i d, i < nIds → d < nDim → pooledPW v obs i d = .val 0) →
+        popLL .pooled nIds nDim (fun i _ d => v i d) obs = .val 0)
+    ∧ ((∃ i d, i < nIds ∧ d < nDim ∧ pooledPW v obs i d = .negInf) →
+        popLL .pooled nIds nDim (fun i _ d => v i d) obs = .negInf) := by
+  have h1 : ∀ i d, pooledPW v obs i d = if obs i d = v i d then .val 0 else .negInf := by
+    intro i d
+    unfold pooledPW
+    by_cases h : obs i d = v i d
+    · simp [h]
+    · have : ¬ (obs i d ≤ v i d ∧ v i d ≤ obs i d) := fun hh => h (le_antisymm hh.1 hh.2)
+      simp only [le_real, Bool.and_eq_true, decide_eq_true_eq, this, if_false, h]
+  refine ⟨h1, ?_, ?_⟩
+  · intro h
+    apply (C05_pooled_is_pointmass nIds nDim (fun i _ d => v i d) obs).1
+    intro i d hi hd
+    have := h i d hi hd
+    rw [h1] at this
+    by_contra hne
+    simp [hne] at this
+  · rintro ⟨i, d, hi, hd, h⟩
+    apply (C05_pooled_is_pointmass nIds nDim (fun i _ d => v i d) obs).2
+    refine ⟨i, d, hi, hd, ?_⟩
+    rw [h1] at h
+    intro he
+    simp [he] at h
+
+/-- **C05 (one-dimensional observations).** A plain vector of observations is read as the column
+    `observations[:, np.newaxis]`: same number of individuals, entry `i` in dimension `0` — so for a
+    one-dimensional model every method returns what it returns for the `(n_ids, 1)` matrix. -/
+theorem C05_obs_1d {α : Type} [Add α] [Sub α] [Mul α] [Div α] [Neg α] [ScalarFns α] (l : List α) :
+    (ObsArg.vec l).view.1 = (ObsArg.mat (l.map (fun x => [x]))).view.1
+    ∧ ∀ i, i < l.length → (ObsArg.vec l).view.2 i 0 = (ObsArg.mat (l.map (fun x => [x]))).view.2 i 0 := by
+  refine ⟨by simp [ObsArg.view], ?_⟩
+  intro i hi
+  simp [ObsArg.view, List.getD_eq_getElem?_getD, hi]
 
 
 end ChiModel
